@@ -249,12 +249,14 @@ type fieldInfo struct {
 
 // masterFile is the immutable "before" state of one image file.
 type masterFile struct {
-	Path    string
-	Lit     fileLit
-	Desc    *descriptorpb.FileDescriptorProto // full, never mutated
-	NoSCI   *descriptorpb.FileDescriptorProto // clone without SourceCodeInfo, never mutated
-	Fields  []fieldInfo
-	LocKeys []string // path key of every source location
+	Path   string
+	Lit    fileLit
+	Desc   *descriptorpb.FileDescriptorProto // full, never mutated
+	NoSCI  *descriptorpb.FileDescriptorProto // clone without SourceCodeInfo, never mutated
+	Fields []fieldInfo
+	// FieldPtrs[i] is the (never mutated) descriptor of Fields[i]
+	FieldPtrs []*descriptorpb.FieldDescriptorProto
+	LocKeys   []string // path key of every source location
 	// parentOf[i] = index of the `[8]` statement location enclosing file-option location i ([8,N,...]), else -1
 	parentOf []int
 }
@@ -335,6 +337,23 @@ func walkFields(fd *descriptorpb.FileDescriptorProto, visit func(info fieldInfo,
 	}
 }
 
+// collectFields lists the field descriptors in the same order as walkFields, without names and paths.
+func collectFields(fd *descriptorpb.FileDescriptorProto) []*descriptorpb.FieldDescriptorProto {
+	var out []*descriptorpb.FieldDescriptorProto
+	var msg func(m *descriptorpb.DescriptorProto)
+	msg = func(m *descriptorpb.DescriptorProto) {
+		out = append(out, m.Field...)
+		out = append(out, m.Extension...)
+		for _, n := range m.NestedType {
+			msg(n)
+		}
+	}
+	for _, m := range fd.MessageType {
+		msg(m)
+	}
+	return append(out, fd.Extension...)
+}
+
 func buildMaster(ctx context.Context, spec imageSpec) (*master, error) {
 	var opts []bufimage.BuildImageOption
 	if spec.NoSrcInfo {
@@ -374,6 +393,10 @@ func buildMaster(ctx context.Context, spec imageSpec) (*master, error) {
 		mf.NoSCI = proto.Clone(mf.Desc).(*descriptorpb.FileDescriptorProto)
 		mf.NoSCI.SourceCodeInfo = nil
 		walkFields(mf.Desc, func(info fieldInfo, _ *descriptorpb.FieldDescriptorProto) { mf.Fields = append(mf.Fields, info) })
+		mf.FieldPtrs = collectFields(mf.Desc)
+		if len(mf.FieldPtrs) != len(mf.Fields) {
+			return nil, fmt.Errorf("image %s: walkers disagree on %s", spec.Name, f.Path())
+		}
 		if sci := mf.Desc.SourceCodeInfo; sci != nil {
 			if spec.NoSrcInfo {
 				return nil, fmt.Errorf("image %s: %s has source info", spec.Name, f.Path())
